@@ -134,6 +134,13 @@ def messages(tier, rng):
                 if t not in seen:
                     seen.add(t)
                     yield t, dict(meta, cls=cls, pretty=pretty)
+    # IDs with leading / trailing white space are exposed as they are written
+    for cls, doc, meta in gens.story_level_messages(gens.PADDED_STORY_IDS[:2], max_src=2, full_refs=False):
+        for pretty in (False, True):
+            yield to_text(doc, pretty=pretty), dict(meta, cls=cls, pretty=pretty, padded=True)
+    for cls, doc, meta in gens.item_level_messages([gens.PADDED_STORY_IDS[1], '  '], gens.PADDED_ITEM_IDS, max_src=2):
+        for pretty in (False, True):
+            yield to_text(doc, pretty=pretty), dict(meta, cls=cls, pretty=pretty, padded=True)
     for cls, doc, meta in gens.other_messages(['A', 'B']):
         for pretty in (False, True):
             yield to_text(doc, pretty=pretty), dict(meta, cls=cls, pretty=pretty)
@@ -143,7 +150,7 @@ def messages(tier, rng):
 class Check:
     pid = 'C20'
     rule = ('every story-level, item-level and other message of the exhaustive generators (all classes x 0..n sources over '
-            '{existing, unknown, blank} x targets in {present, blank, absent}) x {compact, pretty-printed}: the Python accessor '
+            '{existing, unknown, blank} x targets in {present, blank, absent}; IDs with leading / trailing white space) x {compact, pretty-printed}: the Python accessor '
             'values (IDs of target / sources / carried elements, the carried XML) and the text inspect() prints, compared with the '
             'model. distinct by (class, #sources, blank/absent pattern, pretty, inspect outcome)')
 
